@@ -284,7 +284,10 @@ def cp2k_tree(path):
                 stack.pop()
             else:
                 node = {"sub": {}, "data": {}, "settings": w[1:]}
-                stack[-1]["sub"][w[0].upper()] = node
+                key = w[0].upper() + ("".join(" " + x for x in w[1:]) if w[0].upper() == "KIND" else "")   # same-titled siblings: told apart by their parameter
+                if key in stack[-1]["sub"]:
+                    key += "#dup"
+                stack[-1]["sub"][key] = node
                 stack.append(node)
         else:
             w = t.split(None, 1)
@@ -302,6 +305,12 @@ def run_cp2k(c, work):
     if c["has_print"]:
         lines += ["  &PRINT", "    &RESTART", "      BACKUP_COPIES 0", "    &END RESTART", "  &END PRINT"]
     lines += ["&END MOTION"]
+    elements = ["H", "O", "C"][:c.get("kinds", 0)]
+    if elements:
+        lines += ["&FORCE_EVAL", "  &SUBSYS"]
+        for el in elements:
+            lines += [f"    &KIND {el}", f"      BASIS_SET SZV-{el}", f"      POTENTIAL GTH-{el}", "    &END KIND"]
+        lines += ["  &END SUBSYS", "&END FORCE_EVAL"]
     src, o1, o2 = (os.path.join(work, x) for x in ("t.inp", "o1.inp", "o2.inp"))
     with open(src, "w") as fh:
         fh.write("\n".join(lines) + "\n")
@@ -311,6 +320,8 @@ def run_cp2k(c, work):
         upd["MOTION->MD"] = {"data": {k: new[k] for k in sorted(update)}}
     if c["add_section"]:
         upd["FORCE_EVAL->SUBSYS->CELL"] = {"data": {"ABC": "10.0 10.0 10.0"}}
+    if c.get("edit_kind"):
+        upd[f"FORCE_EVAL->SUBSYS->KIND->{elements[-1]}"] = {"data": {"BASIS_SET": "DZVP-NEW"}}
     rem = ["MOTION->PRINT"] if c["remove_print"] else None
     CP.update_cp2k_input(src, o1, update=upd or None, remove=rem)
     CP.update_cp2k_input(o1, o2, update=upd or None, remove=rem)
@@ -318,13 +329,17 @@ def run_cp2k(c, work):
     for k in update:
         exp["MOTION"]["sub"]["MD"]["data"][k] = new[k]
     if c["add_section"]:
-        exp["FORCE_EVAL"] = {"settings": [], "data": {}, "sub": {"SUBSYS": {"settings": [], "data": {}, "sub": {"CELL": {"settings": [], "data": {"ABC": "10.0 10.0 10.0"}, "sub": {}}}}}}
+        exp.setdefault("FORCE_EVAL", {"settings": [], "data": {}, "sub": {}})["sub"].setdefault("SUBSYS", {"settings": [], "data": {}, "sub": {}})["sub"]["CELL"] = \
+            {"settings": [], "data": {"ABC": "10.0 10.0 10.0"}, "sub": {}}
+    if c.get("edit_kind"):
+        exp["FORCE_EVAL"]["sub"]["SUBSYS"]["sub"][f"KIND {elements[-1]}"]["data"]["BASIS_SET"] = "DZVP-NEW"
     if c["remove_print"]:
         exp["MOTION"]["sub"].pop("PRINT", None)
     fails = []
     got = cp2k_tree(o1)
     if got != exp:
-        fails.append(("cp2k:edit", f"editing MOTION->MD {sorted(update)} (present {sorted(present)}), add_section={c['add_section']}, remove_print={c['remove_print']}: "
+        fails.append(("cp2k:edit" + (":same-titled-siblings" if c.get("kinds", 0) >= 3 else ""), f"editing MOTION->MD {sorted(update)} (present {sorted(present)}), add_section={c['add_section']}, remove_print={c['remove_print']}, "
+                                   f"{c.get('kinds', 0)} &KIND sections, edit_kind={c.get('edit_kind')}: "
                                    f"the resulting section tree differs from the requested one: MD = {got.get('MOTION', {}).get('sub', {}).get('MD', {}).get('data')}"))
     if cp2k_tree(o2) != got:
         fails.append(("cp2k:idempotent", "applying the same CP2K edit twice changes the tree again"))
